@@ -3174,6 +3174,7 @@ void PrintNoISymbols(FILE* f) {
     Context.Handle++;
     for (CurrSection = FirstSection; CurrSection; CurrSection = CurrSection->Next) {
         if (ChunkSum(&CurrSection->Usage) > 0) {
+            errno = 0;
             fprintf(f, "FUNCTION %s ", CurrSection->Name);
             ChkIO(ErrNum_FileWriteError);
             fprintf(f, "%" PRIu64, ChunkMin(&CurrSection->Usage));
